@@ -365,7 +365,8 @@ def grad_tile(ans, x, reps):
     x_shape = anp.shape(x)
 
     def vjp(g):
-        for axis, rep in enumerate(reps):
+        # np.tile aligns reps with the *trailing* axes when len(reps) < x.ndim
+        for axis, rep in enumerate(reps, max(0, len(x_shape) - len(reps))):
             g = sum(anp.split(g, rep, axis))
         return anp.reshape(g, x_shape)
 
